@@ -193,6 +193,46 @@ CLAIMED['C10'] = dict(
     note='Queries have 8 hex digits after prefix stripping; reference codes are 8 characters; file names carry their entry id.',
     technique='TLC-computed match sets (PelDir/Selection operators) against real CLI look-up results on generated directories')
 
+CLAIMED['C14'] = dict(
+    text='Ilog.tla transcribes the ILOG rules (8-byte entry cursor, all-zero skip, partial tail, timestamp rule, wildcard '
+         'match per nibble, first match in table order, retry with the reported flag cleared for error PTEs only, parameter '
+         'bytes, suffix) and PyFormat.tla the subset of Python %-formatting the tables use; TLC checks the rule '
+         'consequences over tables of <= 3 overlapping patterns x 9 PTEs and the cursor.  The real parse_ilog_data is run '
+         'against both shipped tables (independent reader, cross-checked by PTE_TABLE_SIZE; for every one of the 615 / 598 '
+         'patterns: wildcard fills, reported variants, near misses) and synthetic tables rendered in varied surface syntax; '
+         'TLC recomputes every line (Timestamp, Seq, Pte, Message clauses).',
+    design='DESIGN.md 4.11, 5 C14, Appendix C',
+    note='Executable-reference use of the spec.  Patterns are 8 characters of hex digits and *; directives are those of PyFormat.tla.',
+    technique='TLA+ transcription (Ilog.tla, PyFormat.tla) model-checked on small tables + TLC-judged output of the real decoder on shipped and synthetic tables')
+CLAIMED['C15'] = dict(
+    text='TraceBuf.tla transcribes header reading, the entry loop bounded by the declared size, entry framing (fixed 16 '
+         'bytes, data, padding, trailing size word) with its four stop reasons, string look-up (first exact, else last '
+         'partial modulo 100000), up to five big-endian arguments, warning and dump rules and the loss-less fall-back; TLC '
+         'checks the framing over data lengths {0,1,3,4,1024,1025} x malformed variants x declared sizes.  The real '
+         'parse_trace_data is run on buffers with every stop reason, alignment, hash class, tag and argument count against '
+         'both shipped string files and synthetic ones; TLC recomputes header, every entry line, warnings and dumps.',
+    design='DESIGN.md 4.11, 5 C15',
+    note='Executable-reference use of the spec; 32-bit quantities are handled as byte sequences in TLA+.',
+    technique='TLA+ transcription (TraceBuf.tla) with model-checked framing + TLC-judged output of the real decoder')
+CLAIMED['C16'] = dict(
+    text='Hlog.tla states the field cursor (contiguous from offset 0, stop at the first misfit, listed iff non-zero, value '
+         'padded to the field width); TLC checks it over all tables of <= 3 fields x all data of length <= total+1.  The '
+         'real parse_hlog_data is run on both shipped field tables and synthetic ones for every length class and value '
+         'pattern; TLC judges DumpLossless (HexDump!Parse of the dump part = data) and Fields.',
+    design='DESIGN.md 4.11, 5 C16',
+    note='Field lines are read as name / separator / hex value; the exact separator is not compared.',
+    technique='TLC model checking of Hlog.tla + TLC-judged output of the real decoder')
+CLAIMED['C17'] = dict(
+    text='DrawerDump.tla defines the regions (first occurrence of each start-bytes + name, sorted, each running to the next) '
+         'and TLC checks over all token strings of <= 4 tokens that they partition the input in address order and start at '
+         'recognised headers.  The real parse_dump_data is run on inputs with every placement of headers and decoys, and the '
+         'same bytes as text in both hex formats through parse_dump_file; TLC judges that the sections of the real output '
+         'are exactly the spec\'s regions (count, kinds, bounds), each decoded as the stand-alone real decoder decodes those '
+         'bytes, FileEqualsRaw and EmptyGivesNothing.',
+    design='DESIGN.md 4.11, 5 C17',
+    note='The stand-alone decoders are the oracle for region content (their output is C14 / C15).',
+    technique='TLC model checking of DrawerDump.tla + TLC-judged partition of real outputs')
+
 REASON_NOT_YET = 'check not built yet in this session (planned per DESIGN.md 5); not claimed until its TLC-judged check runs green on the unchanged tree'
 
 
